@@ -5,7 +5,7 @@ from .. import nodegen
 from . import _nodecommon
 
 ID = "C05"
-SUITES = ["init", "node"]
+SUITES = ["init", "node", "codec"]
 LEAN_MODULES = ["VpnCloud.Proofs.C05", "VpnCloud.Proofs.C05Lockstep", "VpnCloud.Proofs.C05Agree"]
 THEOREMS = ["VpnCloud.Proofs.C05." + n for n in ("masterKey_comm", "masterKey_comm_wf", "masterKey_inj", "halves_opposite", "initiator_success_binds", "no_second_success", "success_stage")] + [
             "VpnCloud.Proofs.C05Lockstep.lockstep_completes", "VpnCloud.Proofs.C05Lockstep.lockstep_completes_run", "VpnCloud.Proofs.C05Lockstep.ping_accepted", "VpnCloud.Proofs.C05Lockstep.pong_completes_initiator", "VpnCloud.Proofs.C05Lockstep.peng_completes_responder", "VpnCloud.Proofs.C05Lockstep.Toy.hyps_cipher", "VpnCloud.Proofs.C05Lockstep.Toy.hyps_plain"]
@@ -75,6 +75,12 @@ def gen(tier, rng):
         yield initgen.c05_random(rng, rng.range(10, 200 if thorough else 60), "rand-%d" % i)
     for i in range(6 if thorough else 1):
         yield initgen.rotation_run(rng, "rotation-%d" % i, 900 if thorough else 380)
+    # "each received exactly the node information the other offered": the offered information at the format's limits (7 addresses per family)
+    from . import C16 as _c16
+    yield _c16.boundary_ni_script(rng.fork("ni"), "ni-boundary")
+    # "never both complete … with different … ciphers": cipher lists in different orders with equal speeds at the top, both initiators
+    for s in initgen.c06_tie_scripts(rng.fork("ties"), thorough):
+        yield s
     # node level: adversarial network followed by a reliable phase of peer timeout + handshake retry horizon
     yield nodegen.restart_script(rng, "restart-dial-2", 2)
     yield nodegen.restart_script(rng, "restart-dial-1", 1)
